@@ -10,3 +10,4 @@ INVARIANT TypeOK
 INVARIANT Confined
 INVARIANT UnsafeRefused
 CHECK_DEADLOCK FALSE
+CONSTRAINT Modelled
